@@ -39,6 +39,19 @@ def fresh_v(prefix: str = "v"):
     return z3.Const(fresh_name(prefix), V)
 
 
+# Event clock (allocation order, used ONLY syntactically by the heap rewriter): every allocation and every creation of
+# a heap array constant (entry heap = 0, havoc of a container / of the whole heap) gets the next number.  Along one
+# symbolic path events are numbered in execution order, so "allocated after the array was created" is a comparison.
+EVENT: dict[str, int] = {}
+_clock = [0]
+
+
+def tick(name: str) -> int:
+    _clock[0] += 1
+    EVENT[name] = _clock[0]
+    return _clock[0]
+
+
 # family id of references created per element of a comprehension (0: an individually allocated reference)
 SkFam = z3.Function("SkFam", V, z3.IntSort())
 _fam_counter = [0]
@@ -191,6 +204,8 @@ class Heap:
     def initial(cls, tag: str = "0", field_names=()):
         comps = {k: z3.Const(f"H{tag}_{k}", s) for k, s in cls.COMPONENTS.items()}
         fields = {n: z3.Const(f"H{tag}_f_{n}", VV) for n in field_names}
+        for a in list(comps.values()) + list(fields.values()):
+            EVENT[a.decl().name()] = 0
         return cls(comps, fields)
 
     def with_comp(self, k, arr):
@@ -207,15 +222,19 @@ class Heap:
         c = dict(self.c)
         for k in comps if comps is not None else list(c):
             c[k] = z3.Const(fresh_name(f"H_{k}"), self.COMPONENTS[k])
+            tick(c[k].decl().name())
         f = dict(self.f)
         for n in fields if fields is not None else list(f):
             f[n] = z3.Const(fresh_name(f"H_f_{n}"), VV)
+            tick(f[n].decl().name())
         return Heap(c, f)
 
     def havoc_ref(self, k, ref):
         """Forget the contents of one container (component k) only."""
         rng = self.COMPONENTS[k].range()
-        return self.with_comp(k, z3.Store(self.c[k], ref, z3.Const(fresh_name(f"hv_{k}"), rng)))
+        hv = z3.Const(fresh_name(f"hv_{k}"), rng)
+        tick(hv.decl().name())
+        return self.with_comp(k, z3.Store(self.c[k], ref, hv))
 
 
 def heap_wellformed(h: Heap):
